@@ -205,6 +205,15 @@ func init() {
 					sc.Store[u] = m
 					one(fmt.Sprintf("%s:store[%s]:%s", ce.Name, u, how), sc)
 				})
+				// the stored value is gone: the Database reports an error, or
+				// (nil, nil) - the answer the library's own GET handler
+				// allows for
+				for _, nilMissing := range []bool{false, true} {
+					sc := cloneScenario(base)
+					delete(sc.Store, u)
+					sc.Cfg.GetNilForMissing = nilMissing
+					one(fmt.Sprintf("%s:store[%s]:missing(nil=%v)", ce.Name, u, nilMissing), sc)
+				}
 				for _, other := range []string{"Note", "Person", "Collection", "OrderedCollection", "Link", "Tombstone", "Follow", "Like", "Create", "Question"} {
 					var c map[string]interface{}
 					mustRoundTrip(base.Store[u], &c)
